@@ -19,6 +19,30 @@ ASSUMPTIONS = ['flock(2) excludes across processes on the served file system', '
 MUT = tables.FS_MUTATORS
 
 
+def _fixed_leaf_names(F, body, op, depth=0):
+    """the constant final components a path operand can have (`x.join("listing.json")`, also as the return value of a small crate
+    helper); None when some origin is not of that form"""
+    fl = flow_of(body)
+    out = set()
+    os_ = [o for o in fl.origins(op) if o.kind != 'comb']
+    if not os_ or depth > 2:
+        return None
+    for o in os_:
+        if o.kind == 'call' and o.key == 'std::path::Path::join' and o.bb is not None and not o.path:
+            a1 = [x for x in call_arg_origins(fl, o.bb, 1) if x.kind != 'comb']
+            if not a1 or not all(x.kind == 'const' and isinstance(x.key, str) and x.key and '/' not in x.key and x.key not in ('.', '..') for x in a1):
+                return None
+            out |= {x.key for x in a1}
+        elif o.kind == 'call' and F.body(str(o.key)) is not None and o.bb is not None and not o.path:
+            inner = _fixed_leaf_names(F, F.body(str(o.key)), 0, depth + 1)
+            if inner is None:
+                return None
+            out |= inner
+        else:
+            return None
+    return out
+
+
 def run(ctx):
     F = ctx.F['cli']
     ctx.rule('C03.R1', 'with_commit_lock: exclusive lock on lockdir/commit.lock, closure called once under its Ok edge, file kept open; the lock path is never unlinked/renamed', floor=8)
@@ -93,6 +117,15 @@ def r1(ctx, F, hub):
                 continue
             if not ok and in_graph and callee(rt_).endswith('remove_dir') and labs and labs <= {SAFE, 'SIBLING'}:
                 ok = True       # removing an (empty) directory above a request path never unlinks a file: the lock is a file in a non-empty directory
+            if not ok and in_graph and labs == {ROOT}:
+                # a fixed name under the root / control directory that is positively not the lock's (an index file, a marker):
+                # replacing it by rename never touches the lock inode
+                rest = [op_ for op_ in ops_ if hub.path_class(body, op_) != 'staging']
+                names = [_fixed_leaf_names(F, body, op_) for op_ in rest]
+                if rest and all(n_ is not None and n_ and 'commit.lock' not in n_ for n_ in names):
+                    ctx.ok('C03.R1', '%s:%s:fixed-name-not-the-lock' % (body.path.split('::{')[0].replace('serve::', '').replace(' ', '_'), callee(rt_).split('::')[-1]),
+                           'renames/removes the fixed name(s) %s, not the lock file' % sorted(set().union(*names)), term_loc(body, rb_))
+                    continue
             if not ok and in_graph and labs == {ROOT} and all(hub.from_walk(body, op_) for op_ in ops_):
                 # entries found by walking the served tree (a clean-up of leftovers): whether the walk can hand over the lock
                 # file depends on how the entries are filtered - data, not shape
